@@ -39,8 +39,7 @@ var payloads = map[string][]string{
   type: c
   major: 10
   minor: 20
-  file_mode: 420
-  uid: 7
+  gid: 7
 `, `
 - path: /dev/b1
   type: b
@@ -62,7 +61,6 @@ var payloads = map[string][]string{
 - source: /src/a
   destination: /dst/a
   type: bind
-  options: [bind, ro]
 `, `
 - source: /src/b1
   destination: /dst/b1
@@ -105,7 +103,7 @@ type expAdj struct {
 func refDevices(p int) []string {
 	switch p {
 	case 1:
-		return []string{"/dev/a c 10:20 mode=420 uid=7 gid=unset"}
+		return []string{"/dev/a c 10:20 mode=unset uid=unset gid=7"}
 	case 2:
 		return []string{"/dev/b1 b 1:0 mode=384 uid=3 gid=unset", "/dev/b2 c 2:3 mode=unset uid=unset gid=9", "/dev/b3 c 4:5 mode=unset uid=unset gid=unset"}
 	}
@@ -114,7 +112,7 @@ func refDevices(p int) []string {
 func refMounts(p int) []string {
 	switch p {
 	case 1:
-		return []string{"/src/a -> /dst/a bind [bind ro]"}
+		return []string{"/src/a -> /dst/a bind []"}
 	case 2:
 		return []string{"/src/b1 -> /dst/b1 bind [rbind ro]", "tmpfs -> /dst/b2 tmpfs [nosuid]", "/src/b3 -> /dst/b3  []"}
 	}
@@ -364,7 +362,7 @@ func generate(thorough bool) []*Case {
 		rec(nil, 0)
 	}
 	// ulimit payload variants: spellings x (soft, hard)
-	for _, sp := range []struct{ in, norm string }{{"NOFILE", "RLIMIT_NOFILE"}, {"nofile", "RLIMIT_NOFILE"}, {"RLIMIT_NOFILE", "RLIMIT_NOFILE"}, {"rlimit_nofile", "RLIMIT_NOFILE"}, {"Rlimit_NoFile", "RLIMIT_NOFILE"}, {"BOGUS", ""}, {"RLIMIT_", ""}, {"", ""}} {
+	for _, sp := range []struct{ in, norm string }{{"NOFILE", "RLIMIT_NOFILE"}, {"nofile", "RLIMIT_NOFILE"}, {"RLIMIT_NOFILE", "RLIMIT_NOFILE"}, {"rlimit_nofile", "RLIMIT_NOFILE"}, {"Rlimit_NoFile", "RLIMIT_NOFILE"}, {"RLIMIT_nofile", "RLIMIT_NOFILE"}, {"RLIMIT_NoFile", "RLIMIT_NOFILE"}, {"rlimit_NOFILE", "RLIMIT_NOFILE"}, {"BOGUS", ""}, {"RLIMIT_", ""}, {"", ""}} {
 		const max64 = ^uint64(0)
 		for _, sh := range [][2]uint64{{1, 2}, {2, 2}, {3, 2}, {0, 0}, {0, max64}, {max64, max64}, {max64, 65536}, {1<<63 + 1, 0}, {1 << 63, 1<<63 - 1}, {1<<63 - 1, 1 << 63}, {65536, max64}} {
 			pl := fmt.Sprintf("- type: %q\n  soft: %d\n  hard: %d\n", sp.in, sh[0], sh[1])
